@@ -19,4 +19,8 @@ theorem css_helper_pins :
        ("GetDefaultHandler", "4348291cdf0b8d658828947a72b32cfcd4f94d2311a2518f99f494461aa6dd72")] := by
   decide
 
+/-- the closure `AllowDataURIImages` registers for the data scheme (hand model: `dataURIImagePolicy`) -/
+theorem data_uri_closure_pin :
+    Gen.dataURIImageClosureHash = "b0dfd2cef2417df9960d9ed7879140f24274abf1fc7ebed888385747310b14eb" := by decide
+
 end BM.Props
